@@ -9,15 +9,33 @@
 // D <n> <perc|-> <gap|-> <seed> <op>...
 //     op = hi:<run> | di:<run> | ds:<gen> | dc:<run> | ev:<seed>:<mod>:<t|v|b>
 //   -> OK I <T> <V> # <op> <ret> <clrT> <clrV> <draws> <T> <V> # ...
-// S <h|d|a> <n> <perc|-> <gap|-> <seed> <runs> <gens>
-//   -> OK I <T> <V> # G <run> <gen> <draws> <T> <V> # C <t|v> <clrT> <clrV> <draws> <T> <V> ...
+// S <h|d|a> <n> <perc|-> <gap|-> <seed> <runs> <gens> [<cache bits, 0 = no cache>]
+//   -> OK I <T> <V> # G <run> <gen> <draws> <T> <V> [F<0|1>] # C <t|v> <clrT> <clrV> <draws> <T> <V> ...
+//      with a cache (the REAL evaluator_proxy around the training evaluator) F tells whether, at the end
+//      of the generation, the fitness of the best individual obtained through the proxy equals the one a
+//      brand new cache-less evaluator computes on the current training set (F0 = a stale cached value)
 //      # E <perc> <dss> <T> <V>
 // T <s>   -> the C++ value of static_cast<ptrdiff_t>(target_size) for size s
 #include <algorithm>
 #include <cstddef>
 #include <cstdio>
+#include <filesystem>
+#include <fstream>
+#include <functional>
+#include <map>
+#include <memory>
+#include <random>
+#include <set>
+#include <sstream>
+#include <string>
+#include <variant>
+#include <vector>
 
+// search<T, ES>::eva1_ / eva2_ are protected: the harness installs a spying
+// cache proxy there (no source change)
+#define protected public
 #include "common.h"
+#undef protected
 
 using namespace vita;
 
@@ -237,6 +255,43 @@ struct spy_eval final : B
   }
 };
 
+void log_clear(char which)
+{
+  search_log &L(*g_log);
+  (which == 't' ? L.ct : L.cv)++;
+  const std::string dr(which == 't' ? L.last_bools(L.tr->size() + L.va->size()) : std::string("-"));
+  L.out += std::string(" # C ") + which + " " + std::to_string(L.ct) + " " + std::to_string(L.cv) + " " + dr
+           + " " + dump(*L.tr) + " " + dump(*L.va);
+  if (which == 'v')
+  {
+    g_draws.clear();
+    L.mark = 0;
+  }
+}
+
+unsigned long long g_raw_evals = 0;
+
+struct counting_rmae final : rmae_evaluator<i_mep>
+{
+  explicit counting_rmae(dataframe &d) : rmae_evaluator<i_mep>(d) {}
+  fitness_t operator()(const i_mep &p) override
+  {
+    ++g_raw_evals;
+    return rmae_evaluator<i_mep>::operator()(p);
+  }
+};
+
+// the real cache proxy; clear() = the real clear() + a log entry
+struct spy_proxy final : evaluator_proxy<i_mep, counting_rmae>
+{
+  spy_proxy(dataframe &d, unsigned bits) : evaluator_proxy<i_mep, counting_rmae>(counting_rmae(d), bits) {}
+  void clear() override
+  {
+    evaluator_proxy<i_mep, counting_rmae>::clear();
+    log_clear('t');
+  }
+};
+
 std::string mode_search(const std::vector<std::string> &w)
 {
   const unsigned n(uns(w[2]));
@@ -264,6 +319,9 @@ std::string mode_search(const std::vector<std::string> &w)
   src_search<i_mep, std_es> s(p);
   s.template training_evaluator<spy_eval<rmae_evaluator<i_mep>>>(*L.tr, 't');
   s.template validation_evaluator<spy_eval<rmae_evaluator<i_mep>>>(*L.va, 'v');
+  const unsigned cache_bits(w.size() > 8 ? uns(w[8]) : 0);
+  if (cache_bits)
+    s.eva1_ = std::make_unique<spy_proxy>(*L.tr, cache_bits);
   if (w[1] == "h") s.validation_strategy(validator_id::holdout);
   else if (w[1] == "d") s.validation_strategy(validator_id::dss);
   else s.validation_strategy(validator_id::as_is);
@@ -284,8 +342,18 @@ std::string mode_search(const std::vector<std::string> &w)
                            ++k;
                          dr = show_draws(0, k);
                        }
+                       std::string fresh;
+                       if (cache_bits && !L.tr->empty())
+                       {
+                         const fitness_t via_proxy((*s.eva1_)(st.best.solution));
+                         rmae_evaluator<i_mep> brand_new(*L.tr);
+                         const fitness_t direct(brand_new(st.best.solution));
+                         const bool same(via_proxy.size() == direct.size() && via_proxy.size()
+                                         && vv::bits_of(via_proxy[0]) == vv::bits_of(direct[0]));
+                         fresh = same ? " F1" : " F0";
+                       }
                        L.out += " # G " + std::to_string(run) + " " + std::to_string(st.gen) + " " + dr + " "
-                                + dump(*L.tr) + " " + dump(*L.va);
+                                + dump(*L.tr) + " " + dump(*L.va) + fresh;
                        if (w[1] != "d") g_draws.clear();
                      });
   g_draws.clear();
